@@ -389,6 +389,7 @@ pub fn run(cfg: &RunCfg) -> CheckReport {
         "part 'ops': every op of the four kinds with old_index, new_index in 0..=I and every length in 0..=L (Replace: both lengths) over 8-item sequences whose old and new values all differ except inside an Equal op's ranges; item-wise and slice-wise expansion, apply_to_hook, tag tuple. Non-trivial: the op consumes at least 2 items. part 'whole': every (algorithm, pair) of the listed scope: TextDiff::iter_changes / iter_all_changes / UnifiedDiffHunk::iter_changes (radius 0,1,3) against the concatenation of per-op expansions; non-trivial: >= 2 ops. Cases distinct by construction.",
     );
     rep.assume("oracle: the definition of expansion written out in the harness");
+    rep.assume("consumption modes: iter_changes and iter_slices of every op also through nth/skip/step_by/take-then-rest/fold/count/last/peekable/find/zip/chain, size_hint a valid bound at every position");
     let (mi, ml) = cfg.tier.pick((5, 3), (8, 4));
     let ops = all_ops(mi, ml);
     let chunk = 64;
